@@ -637,6 +637,7 @@ F = "pipefunc/resources.py"
 _TIME_ARM = ('            if resources.time is not None and (\n                max_data["time"] is None\n                or Resources._convert_to_seconds(resources.time)\n'
              '                > Resources._convert_to_seconds(max_data["time"])\n            ):\n                max_data["time"] = resources.time\n')
 MUTANTS = [
+    Mutant("days-as-sixty-hours", "pipefunc/resources.py", "        units = (1, 60, 3600, 86400)\n        return sum(int(v) * unit for v, unit in zip(reversed(time.split(\":\")), units))\n", "        seconds = 0\n        for value in time.split(\":\"):\n            seconds = 60 * seconds + int(value)\n        return seconds\n", ("C20.2-magnitude",), why="round-6 seed C20/17"),
     Mutant("timedelta-seconds-component", "pipefunc/resources.py", "        units = (1, 60, 3600, 86400)\n        return sum(int(v) * unit for v, unit in zip(reversed(time.split(\":\")), units))\n",
            "        from datetime import timedelta\n        s_, m_, h_, d_ = ([int(v) for v in reversed(time.split(\":\"))] + [0, 0])[:4]\n        return timedelta(days=d_, hours=h_, minutes=m_, seconds=s_).seconds\n", ("C20.2-magnitude",), why="round-4 seed C20/11"),
     Mutant("with-defaults-drops-cpus", "pipefunc/resources.py", "        return Resources(**dict(default_resources.dict(), **self.dict()))\n",
